@@ -244,7 +244,28 @@ def check_structure(chk: Check, repo: Repo) -> None:
     chk.ob("stop-sentinel", sp.site(), len(put) == 1 and len(aw) == 1 and cfgs.dominates(put[0].id, aw[0].id), "stop() queues the None sentinel before awaiting the consumer pair", key="stop-sentinel")
 
 
+def check_restart(chk: Check, repo: Repo) -> None:
+    """A stopped queue can be started again: the limiter loop may not leave a cancelled pause in the slot it awaits at
+    the top of the next pacing (`await self._rate_limiter` on a cancelled task raises CancelledError in the awaiter,
+    which ends the loop — nothing is marked done any more and join()/stop() hang).  Every `.cancel()` of the slot is
+    followed, on every path to the end of the coroutine, by a reset of the slot."""
+    f = repo.func(TQ, "TelegramQueue._outgoing_rate_limiter")
+    cfg = CFG(f.node)
+    awaited = [n for n in walk_local(f.node) if isinstance(n, ast.Await) and isinstance(n.value, ast.Attribute) and ast.unparse(n.value.value) == "self"]
+    slots = sorted({a.value.attr for a in awaited})
+    chk.count("task slots awaited by the limiter", len(slots))
+    chk.floor("task slots awaited by the limiter", len(slots), 1)
+    for slot in slots:
+        cancels = [n.id for n in cfg.nodes if n.ast is not None and n.kind == "stmt" and any(isinstance(c, ast.Call) and call_name(c) == f"self.{slot}.cancel" for c in ast.walk(n.ast))]
+        resets = [n.id for n in cfg.nodes if n.kind == "stmt" and isinstance(n.ast, ast.Assign) and ast.unparse(n.ast.targets[0]) == f"self.{slot}"]
+        ok = all(cfg.all_paths_hit(c, resets, [cfg.exit], edge_ok=cfg.normal_only, include_start=False) for c in cancels)
+        foreign = [w.func.qualname for w in attr_writes(repo, slot, include_mutators=False) if w.func.qualname not in ("TelegramQueue.__init__", f.qualname)]
+        cancel_elsewhere = [g.qualname for g in repo.all_functions() if g is not f and g.module.name == TQ and any(call_name(c) == f"self.{slot}.cancel" for c in calls(g.node))]
+        chk.ob("cancelled-pause-is-not-left-in-the-slot", f.site(), ok and not foreign and not cancel_elsewhere, f"self.{slot}: {len(cancels)} cancel site(s) in the limiter, each followed by a reset of the slot before the coroutine ends ({ok}); other writers {foreign}; cancelled elsewhere {cancel_elsewhere}", key=f"restart|{slot}")
+
+
 def run(chk: Check, repo: Repo) -> None:
+    check_restart(chk, repo)
     check_consumer(chk, repo)
     check_limiter(chk, repo)
     check_processing(chk, repo)
